@@ -73,7 +73,11 @@ def main():
 
         world = spec["world"]
         loader = load_carver if worlds.is_carver(world) else load_discretizer
-        obj = loader(json.loads(spec["saved_json"]))
+        try:
+            obj = loader(json.loads(spec["saved_json"]))
+        except Exception as err:  # pylint: disable=W0718
+            print(json.dumps({"load_error": f"{type(err).__name__}: {str(err)[:200]}"}))
+            return
         X, _ = worlds.build_frame(world, "train")
         feats = sorted(str(f) for f in obj.features)
         try:
